@@ -18,7 +18,7 @@ from ..model import AnalysisError
 from ..tables import routing as T
 from .C02 import rule_c as quota_rule
 
-FLOOR = 39
+FLOOR = 52
 EXPLANATION = (
     "Static def-use/normal-form analysis of FLPEnv, MCPEnv, DPPEnv, MDPPEnv (_reset/_step): finishing test on the "
     "pre-increment counter against the quota, counter +1 per step, mask derived from the updated selection with the chosen "
